@@ -185,6 +185,15 @@ def handle (op : String) : R String := do
       | some sc => s!"ok {hexOfString sc.key.str} {sc.flat} {sc.sharp} " ++ pList (fun n => hexOfString n.str) sc.notes ++ " " ++
           pList hexOfString (diatonicChords sc false) ++ " " ++ pList hexOfString (diatonicChords sc true)
       | none => "none")
+  | "keptscale" => do
+    let s ← rStr
+    pure (match (parseKey s.toList).bind newScale with
+      | some sc => s!"ok {hexOfString sc.key.str} {sc.flat} {sc.sharp} " ++ pList (fun n => hexOfString n.str) sc.notes
+      | none => "none")
+  | "keylist" => do
+    let entries := allScales.map fun sc => (sc.key.str, s!"{hexOfString sc.key.str} {sc.flat} {sc.sharp} " ++ pList (fun n => hexOfString n.str) sc.notes)
+    let sorted := (entries.toArray.qsort (fun a b => a.1 < b.1)).toList
+    pure ("ok " ++ pList (·.2) sorted)
   | "getdeg" => do
     let n1 ← rNat; let a1 ← rNat; let n2 ← rNat; let a2 ← rNat; let sh ← rBool
     pure (match (SNote.mk (letterOfNat n1) (accOfNat a1)).getDegree ⟨letterOfNat n2, accOfNat a2⟩ sh with
